@@ -319,9 +319,9 @@ class Lowerer:
         name = pat[1]
         # the caller's iterator: `let mut iter = iter.into_iter();`
         if init[0] == "method" and init[2] == "into_iter" and not init[3] and init[1][0] == "path" \
-                and env.get(init[1][1], ("",))[0] in ("ignored", "ext"):
+                and env.get(init[1][1], ("",))[0] in ("ignored", "ext", "mapiter"):
             env = dict(env)
-            env[name] = ("ext",)
+            env[name] = env[init[1][1]] if env[init[1][1]][0] == "mapiter" else ("ext",)
             return cont(env)
         # `let mut source = ArrayConsumer::new(self);` : the array moves into a consumer (drops `array[position..]`)
         if init[0] == "call" and init[1][0] == "path" and init[1][1] == "ArrayConsumer::new" and len(init[2]) == 1 \
@@ -385,7 +385,9 @@ class Lowerer:
         if e[0] == "un" and e[1] == "!":
             return self.cond(e[2], env, kelse, kthen)
         if e[0] == "method" and e[2] in ("is_some", "is_none") and not e[3] and e[1][0] == "method" and e[1][2] == "next" \
-                and e[1][1][0] == "path" and env.get(e[1][1][1], ("",))[0] == "ext":
+                and e[1][1][0] == "path" and env.get(e[1][1][1], ("",))[0] in ("ext", "mapiter"):
+            b = env[e[1][1][1]]
+            head = ".pollS" if b[0] == "ext" else ".pollMapS %d %s\n  %s" % (b[4], b[1], self.map_closure(b))
             nv = self.nvars
             self.nvars += 1
             c = "(.var %d)" % nv
@@ -396,7 +398,7 @@ class Lowerer:
             self.nvars = nv2
             el = kelse(env)
             self.nvars = nv2
-            return "(.pollS\n  (.ite %s\n  %s\n  %s))" % (c, t, el)
+            return "(%s\n  (.ite %s\n  %s\n  %s))" % (head, c, t, el)
         c = self.X(e, env)
         nv = self.nvars
         t = kthen(env)
@@ -405,7 +407,7 @@ class Lowerer:
         self.nvars = nv
         return "(.ite %s\n  %s\n  %s)" % (c, t, el)
 
-    def hint_match(self, m, env, cont):
+    def hint_match(self, m, env, cont, exact=False):
         """`match iter.size_hint() { (n, _) if g => A, (_, Some(n)) if g => B, _ => C }`"""
         arms = m[2]
         def arm(i, env2):
@@ -422,7 +424,11 @@ class Lowerer:
             if guard is None or not (m1 or m2):
                 raise Unparsed("size_hint arm %s" % pat)
             genv = dict(env2)
-            if m1:
+            if exact:
+                # `Map<slice::Iter>` over an N-element array not yet polled: `size_hint() = (N, Some(N))`
+                genv[(m1 or m2).group(1)] = ("hint", ".usize")
+                c = self.X(guard, genv)
+            elif m1:
                 genv[m1.group(1)] = ("hint", ".hintLo")
                 c = self.X(guard, genv)
             else:
@@ -518,8 +524,8 @@ class Lowerer:
                 b = a
                 while b[0] == "un":
                     b = b[2]
-                if b[0] == "path" and env.get(b[1], ("",))[0] == "ext":
-                    cenv[p[0]] = ("ext",)
+                if b[0] == "path" and env.get(b[1], ("",))[0] in ("ext", "mapiter"):
+                    cenv[p[0]] = env[b[1]]
                 else:
                     raise Unparsed("argument %s of %s" % (p[0], name))
         self.depth += 1
@@ -546,6 +552,13 @@ class Lowerer:
         if kind == "block":
             return self.block(e, env, k)
         if kind == "call" and e[1][0] == "path" and e[1][1] in env and env[e[1][1]][0] == "closureF":
+            if getattr(self, "value_closure", False):
+                # `f(value)` as the closure's result: the caller's closure consumes the element and returns a value
+                if len(e[2]) != 1:
+                    raise Unparsed("map closure calls f with %d arguments" % len(e[2]))
+                nv = self.nvars
+                self.nvars += 1
+                return "(.callM %s\n  %s)" % (self.X(e[2][0], env), k("(.var %d)" % nv, env))
             return self.call_f(e, env, lambda env2: k(".unit", env2))
         if kind == "method" and e[2] in ("fold", "rfold") and len(e[3]) == 2 and e[3][1][0] == "closure":
             return self.fold(e, env, lambda env2: k(".unit", env2), bind=False)
@@ -554,6 +567,8 @@ class Lowerer:
                 return k(self.X(e, env), env)
             except Unparsed:
                 return self.inline_call(e[2], e[3], env, k)
+        if kind == "call" and e[1][0] == "path" and e[1][1] in ("FromIterator::from_iter", "Self::from_iter") and len(e[2]) == 1:
+            return self.inline_static("from_iter", e[2], env, k)
         if kind == "struct":
             return self.struct_lit(None, e, env, lambda env2: k(".outObj", env2))
         if kind == "call" and e[1] == ("path", "Ok") and len(e[2]) == 1 and e[2][0][0] == "block":
@@ -578,6 +593,24 @@ class Lowerer:
             return self.effect(e, env, lambda env2: k(".unit", env2))
         return k(self.X(e, env), env)
 
+    def map_closure(self, b):
+        """lower the closure of `array_iter.map(closure)` in the environment of its creation; its value is its result"""
+        _, obj, clo, cenv, l0 = b
+        params = clo[1]
+        if len(params) != 1 or params[0][0] != "pbind":
+            raise Unparsed("map closure parameters")
+        saved = self.nvars
+        self.nvars = l0
+        benv = self.fresh(cenv, params[0][1], "slot")
+        body = clo[2] if clo[2][0] == "block" else ("block", [], clo[2])
+        self.value_closure = True
+        try:
+            text = self.block(body, benv, lambda x, env2: "(.done %s)" % x)
+        finally:
+            self.value_closure = False
+            self.nvars = saved
+        return text
+
     def inline_static(self, name, args, env, k):
         hdr, body = self.find_callee(name)
         params = [p for p in fn_params(hdr) if p[1] != "self"]
@@ -587,6 +620,13 @@ class Lowerer:
         for p, a in zip(params, args):
             if a[0] == "path" and env.get(a[1], ("",))[0] in ("ignored", "ext"):
                 cenv[p[0]] = ("ignored",)
+            elif a[0] == "path" and env.get(a[1], ("",))[0] == "mapiter":
+                cenv[p[0]] = env[a[1]]
+            elif a[0] == "method" and a[2] == "map" and len(a[3]) == 1 and a[3][0][0] == "closure" and a[1][0] == "path" \
+                    and env.get(a[1][1], ("",))[0] == "slotsiter":
+                # `array_iter.map(|src| …)`: a `Map` over the `slice::Iter` of an object's array; the closure keeps the
+                # environment of its creation
+                cenv[p[0]] = ("mapiter", env[a[1][1]][1], a[3][0], dict(env), self.nvars)
             else:
                 raise Unparsed("argument of %s" % name)
         self.depth += 1
@@ -611,8 +651,8 @@ class Lowerer:
         if kind == "block":
             return self.block(e, env, lambda x, env2: cont(env2))
         if kind == "match" and e[1][0] == "method" and e[1][2] == "size_hint" and e[1][1][0] == "path" \
-                and env.get(e[1][1][1], ("",))[0] == "ext":
-            return self.hint_match(e, env, cont)
+                and env.get(e[1][1][1], ("",))[0] in ("ext", "mapiter"):
+            return self.hint_match(e, env, cont, exact=env[e[1][1][1]][0] == "mapiter")
         if kind == "method":
             recv, name, args = e[1], e[2], e[3]
             # `dst.write(src)`
@@ -694,6 +734,20 @@ class Lowerer:
             return None, None
         ka, ba = kind_of(a)
         kb, bb = kind_of(b)
+        if ka == "slotsiter" and kb == "mapiter":
+            if ba[1] != ".out":
+                raise Unparsed("fill loop over an object that is not the builder")
+            params = clo[1]
+            if len(params) != 1 or params[0][0] != "ptuple" or len(params[0][1]) != 2 or any(p[0] != "pbind" for p in params[0][1]):
+                raise Unparsed("fill closure parameters")
+            ctext = self.map_closure(bb)
+            nv = self.nvars
+            benv = self.fresh(env, params[0][1][0][1], "slot")
+            benv = self.fresh(benv, params[0][1][1][1], "elem")
+            body = clo[2] if clo[2][0] == "block" else ("block", [], clo[2])
+            btext = self.block(body, benv, lambda x, env2: "(.done .unit)")
+            self.nvars = nv
+            return "(.fillMapS %d %s\n  %s\n  %s\n  %s)" % (bb[4], bb[1], ctext, btext, cont(env))
         if ka == "slotsiter" and kb == "ext":
             dest_first, o = True, ba[1]
         elif ka == "ext" and kb == "slotsiter":
@@ -834,6 +888,7 @@ TARGETS = [
     ("lib.rs", ("FromIterator<T>forGenericArray<T,N>",), "from_iter", "fromIter"),
     ("lib.rs", ("GenericSequence<T>forGenericArray<T,N>",), "generate", "generate"),
     ("lib.rs", ("FunctionalSequence<T>forGenericArray<T,N>",), "fold", "gaFold"),
+    ("lib.rs", ("FunctionalSequence<T>forGenericArray<T,N>",), "map", "gaMap"),
 ]
 
 
